@@ -15,6 +15,7 @@ import BytomModel.Model.Asm
 import BytomModel.Model.StdProgs
 import BytomModel.Lemmas.Asm
 import BytomModel.Lemmas.AsmAppend
+import BytomModel.Lemmas.AsmInj
 
 namespace BytomModel.Props.C09
 open BytomModel.Asm BytomModel.Lemmas.Asm BytomModel.Gen
@@ -456,6 +457,212 @@ theorem convert_p2wsh (p : Bytes) (hp : p.length < 4294967296) (h : isP2WSHScrip
   unfold BytomModel.StdProgs.convertP2SHProgram BytomModel.StdProgs.convertWith
   rw [hpar]
   simp [opIs, Ops.OP_0]
+
+/-! ### parsing is injective; the remaining recognisers against their builders -/
+
+/-- **parse_injective.** The instruction list determines the program: `p` is the concatenation
+    of `instBytes i` (opcode, the length field its opcode demands, data) over its instructions.
+    Two programs with the same successful parse are the same byte string. -/
+theorem parse_injective (p : Bytes) (is : List Inst) (hp : p.length < 4294967296)
+    (h : parseProgram p = .ok is) : p = (is.map instBytes).flatten := by
+  have hlen : p.length ≤ maxInt32 := by
+    by_cases hl : p.length ≤ maxInt32
+    · exact hl
+    · rw [parseProgram_long p (by omega) hp] at h; cases h
+  rw [parseProgram_eq p hlen] at h
+  exact specProg_bytes _ _ _ _ h
+
+theorem parse_eq_imp_eq (p q : Bytes) (is : List Inst) (hp : p.length < 4294967296) (hq : q.length < 4294967296)
+    (h1 : parseProgram p = .ok is) (h2 : parseProgram q = .ok is) : p = q := by
+  rw [parse_injective p is hp h1, parse_injective q is hq h2]
+
+/-- every instruction of a successful parse is the result of decoding some suffix -/
+theorem parse_mem_spec (p : Bytes) (is : List Inst) (hp : p.length < 4294967296)
+    (h : parseProgram p = .ok is) : ∀ i ∈ is, ∃ pc s, specOp pc s = .ok i := by
+  have hlen : p.length ≤ maxInt32 := by
+    by_cases hl : p.length ≤ maxInt32
+    · exact hl
+    · rw [parseProgram_long p (by omega) hp] at h; cases h
+  rw [parseProgram_eq p hlen] at h
+  exact specProg_mem _ _ _ _ h
+
+theorem instBytes_congr (i : Inst) (op : UInt8) (d : Bytes) (h1 : i.op = op) (h2 : i.data = d) :
+    instBytes i = instBytes ⟨op, 0, d⟩ := by
+  cases i; simp only at h1 h2; subst h1 h2; rfl
+
+theorem op_eq_of_toNat {i : Inst} {n : Nat} (hn : n < 256) (h : (i.op.toNat == n) = true) : i.op = byte n := by
+  apply UInt8.toNat_inj.mp
+  rw [byte_toNat hn]; simpa using h
+
+/-- **builders_recognised, converse (3).** Every program IsCallContractScript accepts is
+    `CallContractProgram(h)` for the 32-byte hash ParseContractHash returns -/
+theorem call_accepts_only_built (p : Bytes) (hp : p.length < 4294967296)
+    (h : isCallContractScript p = true) :
+    ∃ hash : Bytes, hash.length = 32 ∧ parseContractHash p = .ok hash ∧ p = callContractProgram hash := by
+  unfold isCallContractScript at h
+  cases hpar : parseProgram p with
+  | error e => rw [hpar] at h; simp at h
+  | ok is =>
+    rw [hpar] at h
+    match is, h, hpar with
+    | [i0, i1], h, hpar =>
+      simp only [] at h
+      by_cases hc : (!opIs i0 Ops.OP_DATA_4 || i0.data != Ops.bcrpTag) = true
+      · simp [hc] at h
+      simp only [hc] at h
+      simp only [Bool.or_eq_true, Bool.not_eq_true', bne_iff_ne, ne_eq, not_or, Bool.not_eq_false, Decidable.not_not] at hc
+      simp only [Bool.false_eq_true, if_false, Bool.and_eq_true, beq_iff_eq, Ops.BCRPContractHashDataSize] at h
+      have ho0 := op_eq_of_toNat (n := Ops.OP_DATA_4) (by decide) hc.1
+      have ho1 := op_eq_of_toNat (n := Ops.OP_DATA_32) (by decide) h.1
+      have hinj := parse_injective p _ hp hpar
+      simp only [List.map_cons, List.map_nil, List.flatten_cons, List.flatten_nil, List.append_nil] at hinj
+      rw [instBytes_congr i0 _ _ ho0 hc.2, instBytes_congr i1 _ _ ho1 rfl] at hinj
+      refine ⟨i1.data, h.2, ?_, ?_⟩
+      · unfold parseContractHash
+        rw [hpar]
+        simp only []
+        rw [List.take_append_of_le_length (by omega), List.take_of_length_le (by omega)]
+      · rw [hinj, call_eq]
+        have e1 : pushDataBytes Ops.bcrpTag = instBytes ⟨byte Ops.OP_DATA_4, 0, Ops.bcrpTag⟩ := by decide
+        have e2 : pushDataBytes i1.data = instBytes ⟨byte Ops.OP_DATA_32, 0, i1.data⟩ := by
+          have : i1.data.length = 32 := h.2
+          simp [pushDataBytes, this, instBytes, IsSmallInt, byte, u8, Ops.OP_DATA_1, Ops.OP_DATA_32, Ops.OP_1,
+            Ops.OP_16, Ops.OP_PUSHDATA1, Ops.OP_PUSHDATA2, Ops.OP_PUSHDATA4]
+        rw [e1, e2, List.append_nil]
+
+/-- **builders_recognised, converse (4).** IsStraightforward accepts exactly the two one-byte
+    programs `DefaultCoinbaseProgram()` = OP_TRUE and `RetireProgram(nil)` = OP_FAIL -/
+theorem straightforward_accepts_only_built (p : Bytes) (hp : p.length < 4294967296)
+    (h : isStraightforward p = true) : p = defaultCoinbaseProgram ∨ p = retireProgram [] := by
+  unfold isStraightforward at h
+  cases hpar : parseProgram p with
+  | error e => rw [hpar] at h; simp at h
+  | ok is =>
+    rw [hpar] at h
+    match is, h, hpar with
+    | [i], h, hpar =>
+      simp only [Bool.or_eq_true] at h
+      have hinj := parse_injective p _ hp hpar
+      simp only [List.map_cons, List.map_nil, List.flatten_cons, List.flatten_nil, List.append_nil] at hinj
+      obtain ⟨pc, s, hs⟩ := parse_mem_spec p _ hp hpar i (by simp)
+      rcases h with h | h
+      · left
+        have ho := op_eq_of_toNat (n := Ops.OP_TRUE) (by decide) h
+        rw [hinj]
+        have : IsSmallInt i.op := by rw [ho]; decide
+        simp only [instBytes, this, if_true, ho]
+        rfl
+      · right
+        have ho := op_eq_of_toNat (n := Ops.OP_FAIL) (by decide) h
+        have hpl : IsPlain i.op := by rw [ho]; decide
+        obtain ⟨hd, _⟩ := specOp_plain_inv hs hpl
+        rw [hinj, instBytes_congr i _ _ ho hd]
+        decide
+
+/-- The converse for BCRP registration as one would state it: whatever IsBCRPScript accepts is
+    `RegisterProgram` of the contract ParseContract extracts. -/
+def bcrp_accepts_only_built_full : Prop :=
+  ∀ p : Bytes, p.length < 4294967296 → isBCRPScript p = true →
+    ∃ c, parseContract p = .ok c ∧ p = registerProgram c
+
+/-- witness: `FAIL "bcrp" 01 OP_14` — the fourth instruction is not a PushDataBytes push -/
+def bcrpWitness : Bytes := [0x6a, 0x04, 0x62, 0x63, 0x72, 0x70, 0x01, 0x01, 0x5e]
+
+theorem bcrp_witness_facts :
+    isBCRPScript bcrpWitness = true ∧ parseContract bcrpWitness = .ok [0x0e] ∧
+    registerProgram [0x0e] ≠ bcrpWitness := by decide
+
+/-- non-minimal pushes and even a JUMP (its 4 address bytes are the "contract") are accepted too -/
+theorem bcrp_other_witnesses :
+    isBCRPScript [0x6a, 0x04, 0x62, 0x63, 0x72, 0x70, 0x01, 0x01, 0x4c, 0x01, 0x0e] = true ∧
+    isBCRPScript [0x6a, 0x04, 0x62, 0x63, 0x72, 0x70, 0x01, 0x01, 0x4d, 0x01, 0x00, 0x0e] = true ∧
+    isBCRPScript [0x6a, 0x04, 0x62, 0x63, 0x72, 0x70, 0x01, 0x01, 0x4e, 0x01, 0x00, 0x00, 0x00, 0x0e] = true ∧
+    isBCRPScript [0x6a, 0x04, 0x62, 0x63, 0x72, 0x70, 0x01, 0x01, 0x63, 0x3d, 0x47, 0xf2, 0xcf] = true := by decide
+
+/-- **refuted**: IsBCRPScript accepts programs RegisterProgram never produces -/
+theorem bcrp_accepts_only_built_full_refuted : ¬ bcrp_accepts_only_built_full := by
+  intro h
+  obtain ⟨c, hc, hp⟩ := h bcrpWitness (by decide) bcrp_witness_facts.1
+  rw [bcrp_witness_facts.2.1] at hc
+  injection hc with hc
+  subst hc
+  exact bcrp_witness_facts.2.2 hp.symm
+
+/-- **partial**: what IsBCRPScript accepts has the first three instructions exactly as
+    RegisterProgram emits them, ParseContract returns the data of the fourth, and if the fourth
+    instruction's opcode is the one PushDataBytes chooses for that data length then the program
+    is `RegisterProgram(contract)` byte for byte. -/
+theorem bcrp_accepts_only_built_partial (p : Bytes) (hp : p.length < 4294967296)
+    (h : isBCRPScript p = true) :
+    ∃ i3 : Inst, parseContract p = .ok i3.data ∧ i3.data ≠ [] ∧
+      p = [0x6a, 0x04, 0x62, 0x63, 0x72, 0x70, 0x01, 0x01] ++ instBytes i3 ∧
+      (i3.op = pushOp i3.data.length → p = registerProgram i3.data) := by
+  unfold isBCRPScript at h
+  cases hpar : parseProgram p with
+  | error e => rw [hpar] at h; simp at h
+  | ok is =>
+    rw [hpar] at h
+    match is, h, hpar with
+    | [i0, i1, i2, i3], h, hpar =>
+      simp only [] at h
+      by_cases c0 : (!opIs i0 Ops.OP_FAIL) = true
+      · simp [c0] at h
+      simp only [c0, Bool.false_eq_true, if_false] at h
+      by_cases c1 : (!opIs i1 Ops.OP_DATA_4 || i1.data != Ops.bcrpTag) = true
+      · simp [c1] at h
+      simp only [c1, Bool.false_eq_true, if_false] at h
+      by_cases c2 : (!opIs i2 Ops.OP_DATA_1 || i2.data != [byte Ops.bcrpVersion]) = true
+      · simp [c2] at h
+      simp only [c2, Bool.false_eq_true, if_false, decide_eq_true_eq] at h
+      simp only [Bool.not_eq_true', Bool.not_eq_false] at c0
+      simp only [Bool.or_eq_true, Bool.not_eq_true', bne_iff_ne, ne_eq, not_or, Bool.not_eq_false, Decidable.not_not] at c1 c2
+      have ho0 := op_eq_of_toNat (n := Ops.OP_FAIL) (by decide) c0
+      have ho1 := op_eq_of_toNat (n := Ops.OP_DATA_4) (by decide) c1.1
+      have ho2 := op_eq_of_toNat (n := Ops.OP_DATA_1) (by decide) c2.1
+      obtain ⟨pc, s, hs⟩ := parse_mem_spec p _ hp hpar i0 (by simp)
+      have hpl : IsPlain i0.op := by rw [ho0]; decide
+      obtain ⟨hd0, _⟩ := specOp_plain_inv hs hpl
+      have hinj := parse_injective p _ hp hpar
+      simp only [List.map_cons, List.map_nil, List.flatten_cons, List.flatten_nil, List.append_nil] at hinj
+      rw [instBytes_congr i0 _ _ ho0 hd0, instBytes_congr i1 _ _ ho1 c1.2, instBytes_congr i2 _ _ ho2 c2.2] at hinj
+      have hpre : instBytes ⟨byte Ops.OP_FAIL, 0, []⟩ ++ (instBytes ⟨byte Ops.OP_DATA_4, 0, Ops.bcrpTag⟩ ++
+          (instBytes ⟨byte Ops.OP_DATA_1, 0, [byte Ops.bcrpVersion]⟩ ++ instBytes i3)) =
+          [0x6a, 0x04, 0x62, 0x63, 0x72, 0x70, 0x01, 0x01] ++ instBytes i3 := by
+        have e0 : instBytes ⟨byte Ops.OP_FAIL, 0, []⟩ = [0x6a] := by decide
+        have e1 : instBytes ⟨byte Ops.OP_DATA_4, 0, Ops.bcrpTag⟩ = [0x04, 0x62, 0x63, 0x72, 0x70] := by decide
+        have e2 : instBytes ⟨byte Ops.OP_DATA_1, 0, [byte Ops.bcrpVersion]⟩ = [0x01, 0x01] := by decide
+        rw [e0, e1, e2]; rfl
+      rw [hpre] at hinj
+      have hne : i3.data ≠ [] := by
+        intro h0; rw [h0] at h; simp at h
+      refine ⟨i3, ?_, hne, hinj, ?_⟩
+      · unfold parseContract; rw [hpar]
+      · intro hop
+        have hdl : i3.data.length < 4294967296 := by
+          have hh := congrArg List.length hinj
+          have : i3.data.length ≤ (instBytes i3).length := by
+            unfold instBytes
+            split
+            · -- OP_1..16 cannot be a PushDataBytes opcode of non-empty data … but bound it anyway
+              rename_i hs
+              have hn := pushOp_toNat i3.data.length
+              rw [← hop] at hn
+              unfold IsSmallInt at hs
+              simp only [Ops.OP_1, Ops.OP_16] at hs
+              split at hn
+              · omega
+              · split at hn
+                · simp; omega
+                · split at hn <;> (try split at hn) <;> omega
+            · split <;> (try split) <;> (try split) <;> simp [le32Bytes] <;> omega
+          simp only [List.length_append] at hh
+          omega
+        rw [instBytes_canonical i3 (by omega) hdl hop] at hinj
+        rw [hinj, register_eq]
+        have e1 : pushDataBytes Ops.bcrpTag = [0x04, 0x62, 0x63, 0x72, 0x70] := by decide
+        have e2 : pushDataBytes [byte Ops.bcrpVersion] = [0x01, 0x01] := by decide
+        rw [e1, e2]
+        simp [byte]
 
 /-- **mutual exclusion.** On ANY byte string at most one of the five recognisers answers
     true (IsP2WScript is by definition the union of the first three). -/
